@@ -60,3 +60,20 @@ claim("C08", "other", "constant-table agreement, CFG cut/must-pass, who-may-cons
       "Decides: the marking generator is selected exactly for salt sizes >= 20 (constants and the SDK's cipher specs); cipher entries are only built by MakeCipherEntry and never modified; every success return has installed the matched entry's generator on the writer the returned connection writes through; "
       "success is cut by IsServerSalt == false, unconditionally and before the replay history, on firstBytes[:SaltSize(matched key)]; GetSalt/IsServerSalt share the split and tag helpers with the same mark length, compute tags on per-call hash state, and draw randomness from crypto/rand.",
       "Not decided: pairwise salt uniqueness, HMAC unforgeability.", "DESIGN.md §4 C08")
+
+claim("C03", "other", "CFG cut queries on the per-datagram function (both branches), value provenance of payload/address/key/buffers, loop-shape check of the key search",
+      "Decides on every path of the per-datagram function: every target send, socket creation and association creation is cut by a decryption success edge and by a destination-validation success edge; payload and address sent are the validation's own results on this datagram's plaintext; "
+      "existing associations decrypt with the immutable key bound to the entry found, Add binds the matching key, replies are packed with the association's key; trial decryption uses distinct, loop-owned buffers and reply buffers are per association; each reply carries ParseAddr(String()) of this iteration's source and goes, as packed, to the association's client; the key search tries every key.",
+      "Not decided: AEAD correctness, salt freshness inside SDK Pack, byte equality of payloads.", "DESIGN.md §4 C03")
+claim("C04", "other", "value provenance of NAT keys and sockets, CFG cut on the Get == nil edge, who-may-mutate the table, goroutine binding checks",
+      "Decides: the table is keyed by String() of the whole datagram source (lookup) and of Add's client address (insert/delete); the socket created for a new client flows only into one natmap.Add; sockets and associations are created only on the Get == nil edge and only after authentication and destination validation; "
+      "Add starts exactly one reply goroutine bound to its own client address, listener and entry; reply buffers are per association and replies go only to the association's client; an entry is removed only by its own goroutine under the key it was inserted with.",
+      "Not decided: kernel source-address selection, expiry races at run time.", "DESIGN.md §4 C04")
+claim("C05", "other", "who-may-dial query, guard placement (CFG cut), constant-table containment against the special-purpose registry",
+      "Decides: stream dials happen only through the handler's dialer field, which only the constructor (package default) and SetTargetDialer set; the default is the validating dialer built with RequirePublicIP whose Control hook returns the validator's verdict on the IP parsed from the address being connected on every return; no other net dial exists; "
+      "every UDP datagram's destination is validated on the resolved IP that is then used; the private CIDR literals parse canonically, cover RFC 1918, CGNAT and ULA and each lies inside a special-purpose block; RequirePublicIP accepts only on IsGlobalUnicast(ip) && !IsPrivateAddress(ip); the server never overrides the policy.",
+      "Trusts net.IP.IsGlobalUnicast / IPNet.Contains and the embedded special-purpose list. Not decided: DNS answers, kernel routing, NAT64/6to4 embeddings.", "DESIGN.md §4 C05")
+claim("C16", "other", "path counting and value provenance of metric-call arguments; per-iteration variable check; label-arity and direction tables",
+      "Decides the call discipline of UDP metrics on all paths: association added exactly once with the authenticating key id and removed exactly once; the client packet reported at most once per iteration, only when an association exists, with this iteration's read size and this iteration's target write size held in per-iteration variables; "
+      "the target packet reported exactly once per non-expiry iteration with this iteration's read size and the byte count returned by the client write; statuses are \"OK\" or the error's status; every WithLabelValues has the vector's arity; sizes map to the right direction labels.",
+      "Not decided: numeric equality of per-key sums with bytes on the sockets.", "DESIGN.md §4 C16")
